@@ -1189,6 +1189,8 @@ func (r *foRun) oracleC06() {
 				out.violate("C06.R4", "bg-ctx-deadline", "%s: background build context carries the caller's deadline", b.op.id())
 			case b.doneFired:
 				out.violate("C06.R4", "bg-ctx-done", "%s: background build context's Done() fired", b.op.id())
+			case b.causeExit != nil:
+				out.violate("C06.R4", "bg-ctx-cause", "%s: context.Cause of the background build context is %v (caller cancel mode %q): the caller's cancellation shows through although Err() is nil", b.op.id(), b.causeExit, op.Cancel)
 			case !b.markerVisible:
 				out.violate("C06.R4", "bg-ctx-values-lost", "%s: background build context does not expose the caller's context values", b.op.id())
 			}
